@@ -14,16 +14,20 @@ use reactive_mutiny::verif as rv;
 use std::sync::{atomic::{AtomicI32, Ordering::SeqCst}, Arc, Mutex};
 
 #[derive(Clone, Copy, Debug, PartialEq, Eq)]
-pub enum Step { Clone(u8), Drop(u8), Deref(u8), Bulk(u8, u8), SendTo(u8, u8), Refs(u8), TakeMail }
+pub enum Step { Clone(u8), Drop(u8), Deref(u8), Bulk(u8, u8), SendTo(u8, u8), Refs(u8), TakeMail,
+    /// through a handle that several threads use at once by shared reference (it lives to the end of the run)
+    CloneShared(u8), DerefShared(u8), BulkShared(u8, u8) }
 
 #[derive(Clone, Copy, Debug, PartialEq, Eq)]
 pub enum Creation { New, NewWith, NewWithClones2, NewWithClones3, UniqueIntoArc, UniqueDropped, FromAllocated, UniqueFromTrait, UniqueFromAllocatedId, UniqueFromAllocatedRef, FromAllocatedWithClones2 }
 
 #[derive(Clone, Debug)]
-pub struct Cfg { pub ring: &'static str, pub creations: Vec<Creation>, pub scripts: Vec<Vec<Step>>, pub keep_one: bool, pub origin: Option<u32> }
+pub struct Cfg { pub ring: &'static str, pub creations: Vec<Creation>, pub scripts: Vec<Vec<Step>>, pub keep_one: bool, pub origin: Option<u32>,
+    /// the first handle of each value is not dealt to a thread but put where every thread can use it by shared reference
+    pub shared: bool }
 impl Cfg {
     pub fn json(&self) -> J {
-        J::obj().with("free_list", J::s(self.ring)).with("values_created_by", J::s(format!("{:?}", self.creations))).with("keep_one_handle_to_the_end", J::Bool(self.keep_one))
+        J::obj().with("free_list", J::s(self.ring)).with("values_created_by", J::s(format!("{:?}", self.creations))).with("keep_one_handle_to_the_end", J::Bool(self.keep_one)).with("first_handle_of_each_value_used_by_all_threads_through_a_shared_reference", J::Bool(self.shared))
             .with("scripts", J::Arr(self.scripts.iter().map(|s| J::s(format!("{:?}", s))).collect())).with("sequence_origin", self.origin.map(|o| J::i(o as i64)).unwrap_or(J::Null))
     }
 }
@@ -38,18 +42,20 @@ pub fn draw_cfg(rng: &mut Rng, only: Option<&str>) -> Cfg {
                Creation::UniqueFromTrait, Creation::UniqueFromAllocatedId, Creation::UniqueFromAllocatedRef, Creation::FromAllocatedWithClones2];
     let creations: Vec<Creation> = (0..nvals).map(|_| *rng.pick(&all)).collect();
     let nthreads = 2 + rng.below(2) as usize;
+    let shared = rng.chance(1, 3);
     let mut scripts = Vec::new();
     for _ in 0..nthreads {
         let len = 2 + rng.below(6);
         let mut s = Vec::new();
         for _ in 0..len {
             let k = rng.below(4) as u8;
+            if shared && rng.chance(2, 5) { s.push(match rng.below(10) { 0..=5 => Step::CloneShared(k), 6..=7 => Step::DerefShared(k), _ => Step::BulkShared(k, 1 + rng.below(2) as u8) }); continue }
             s.push(match rng.below(100) { 0..=24 => Step::Clone(k), 25..=54 => Step::Drop(k), 55..=64 => Step::Deref(k), 65..=74 => Step::Bulk(k, 1 + rng.below(3) as u8), 75..=86 => Step::SendTo(k, rng.below(nthreads as u64) as u8), 87..=92 => Step::Refs(k), _ => Step::TakeMail });
         }
         scripts.push(s);
     }
     let origin = match rng.below(3) { 0 => None, 1 => Some(0u32.wrapping_sub(rng.below(9) as u32)), _ => Some(rng.next() as u32) };
-    Cfg { ring, creations, scripts, keep_one: rng.chance(1, 3), origin }
+    Cfg { ring, creations, scripts, keep_one: rng.chance(1, 3), origin, shared }
 }
 
 /// live shared handles per value, kept by the harness (updated BEFORE a handle is dropped, AFTER one is created)
@@ -75,6 +81,7 @@ impl<A: BoundedOgreAllocator<DTok> + Send + Sync + 'static> Drop for H<A> {
     }
 }
 unsafe impl<A: BoundedOgreAllocator<DTok> + Send + Sync + 'static> Send for H<A> {}
+unsafe impl<A: BoundedOgreAllocator<DTok> + Send + Sync + 'static> Sync for H<A> {}   // (OgreArc is Sync: several threads may clone / dereference through one `&OgreArc`)
 
 fn run_generic<A: BoundedOgreAllocator<DTok> + Send + Sync + 'static>(cfg: &Cfg, rc: &RunCfg, acc: &mut Acc, pool_size: usize) -> (Option<J>, u64, bool) {
     rv::set_sequence_origin(cfg.origin);
@@ -88,6 +95,7 @@ fn run_generic<A: BoundedOgreAllocator<DTok> + Send + Sync + 'static>(cfg: &Cfg,
     let mut initial: Vec<Vec<H<A>>> = (0..nthreads).map(|_| Vec::new()).collect();
     let mut dealt = 0usize;
     let mut expected_alive: Vec<bool> = Vec::new();
+    let mut shared_handles: Vec<H<A>> = Vec::new();
     for (v, c) in cfg.creations.iter().enumerate() {
         let id = v as u64 + 1;
         let mut handles: Vec<OgreArc<DTok, A>> = Vec::new();
@@ -113,13 +121,14 @@ fn run_generic<A: BoundedOgreAllocator<DTok> + Send + Sync + 'static>(cfg: &Cfg,
         }
         if tracker().drops_of(id) != 0 && *c != Creation::UniqueDropped { sh.problem("early_drop", format!("value {id} was destroyed during the creation / conversion of its handles")) }
         expected_alive.push(!handles.is_empty());
-        for a in handles { initial[dealt % nthreads].push(H::new(a, v, &sh)); dealt += 1 }
+        for (hi, a) in handles.into_iter().enumerate() { if cfg.shared && hi == 0 { shared_handles.push(H::new(a, v, &sh)) } else { initial[dealt % nthreads].push(H::new(a, v, &sh)); dealt += 1 } }
     }
+    let shared_handles: Arc<Vec<H<A>>> = Arc::new(shared_handles);
     let mailboxes: Arc<Vec<Mutex<Vec<H<A>>>>> = Arc::new((0..nthreads).map(|_| Mutex::new(Vec::new())).collect());
     let kept: Arc<Mutex<Vec<H<A>>>> = Arc::new(Mutex::new(Vec::new()));
     let mut bodies: Vec<Body> = Vec::new();
     for (t, (script, mut mine)) in cfg.scripts.iter().cloned().zip(initial.into_iter()).enumerate() {
-        let (sh, mailboxes, kept, keep_one) = (sh.clone(), mailboxes.clone(), kept.clone(), cfg.keep_one && t == 0);
+        let (sh, mailboxes, kept, keep_one, shared) = (sh.clone(), mailboxes.clone(), kept.clone(), cfg.keep_one && t == 0, shared_handles.clone());
         bodies.push(Box::new(move || {
             for s in script {
                 match s {
@@ -133,6 +142,13 @@ fn run_generic<A: BoundedOgreAllocator<DTok> + Send + Sync + 'static>(cfg: &Cfg,
                     },
                     Step::SendTo(k, to) => if !mine.is_empty() { let i = k as usize % mine.len(); let h = mine.remove(i); mailboxes[to as usize].lock().unwrap().push(h) },
                     Step::TakeMail => { let got: Vec<H<A>> = std::mem::take(&mut *mailboxes[t].lock().unwrap()); mine.extend(got) }
+                    Step::CloneShared(k) => if !shared.is_empty() { let h = &shared[k as usize % shared.len()]; let c = h.a().clone(); mine.push(H::new(c, h.v, &sh)) },
+                    Step::DerefShared(k) => if !shared.is_empty() { shared[k as usize % shared.len()].check_deref() },
+                    Step::BulkShared(k, c) => if !shared.is_empty() {
+                        let h = &shared[k as usize % shared.len()];
+                        unsafe { h.a().increment_references(c as u32); }
+                        for _ in 0..c { let r = unsafe { h.a().raw_copy() }; mine.push(H::new(r, h.v, &sh)) }
+                    },
                     Step::Refs(k) => if !mine.is_empty() { let r = mine[k as usize % mine.len()].a().references_count(); if r == 0 || r > 64 { sh.problem("refcount", format!("references_count() answered {r} through a live handle")) } },
                 }
                 sched::op_done();
@@ -143,7 +159,7 @@ fn run_generic<A: BoundedOgreAllocator<DTok> + Send + Sync + 'static>(cfg: &Cfg,
     }
     let rep = sched::run(rc, bodies);
     acc.account(&rep);
-    if rep.inconclusive() { std::mem::forget(alloc); return (None, rep.sched_hash, true) }
+    if rep.inconclusive() { std::mem::forget(shared_handles); std::mem::forget(alloc); return (None, rep.sched_hash, true) }
     let mut probs: Vec<(String, String)> = sh.problems.lock().unwrap().clone();
     for (t, p) in &rep.panics { probs.push(("panic".into(), format!("thread t{t} panicked: {p}"))) }
     if let Outcome::Stall { .. } = rep.outcome { probs.push(("stall".into(), "run stalled".into())) }
@@ -151,6 +167,7 @@ fn run_generic<A: BoundedOgreAllocator<DTok> + Send + Sync + 'static>(cfg: &Cfg,
     // quiescent point: handles in transit (mailboxes) and kept ones are alive; everything else is gone
     if rep.outcome == Outcome::Done && probs.is_empty() {
         let mut alive: Vec<H<A>> = std::mem::take(&mut *kept.lock().unwrap());
+        match Arc::try_unwrap(shared_handles) { Ok(v) => alive.extend(v), Err(a) => { std::mem::forget(a); probs.push(("harness".into(), "the shared handles are still referenced by a thread".into())) } }
         for m in mailboxes.iter() { alive.extend(std::mem::take(&mut *m.lock().unwrap())) }
         for (v, c) in cfg.creations.iter().enumerate() {
             let id = v as u64 + 1;
@@ -184,7 +201,7 @@ fn run_generic<A: BoundedOgreAllocator<DTok> + Send + Sync + 'static>(cfg: &Cfg,
             tracker().set_enabled(true);
             acc.count("slot_reuse_probes", 1);
         }
-    } else if probs.is_empty() { /* nothing to say */ } else { std::mem::forget(alloc.clone()) }
+    } else if probs.is_empty() { /* nothing to say */ } else { std::mem::forget(shared_handles); std::mem::forget(alloc.clone()) }
     let v = if probs.is_empty() { None } else {
         let mut sigs: Vec<J> = Vec::new();
         for (a, _) in &probs { let s = J::obj().with("anomaly", J::s(a)).with("free_list", J::s(cfg.ring)); if !sigs.iter().any(|x| x.to_string() == s.to_string()) { sigs.push(s) } }
@@ -208,7 +225,7 @@ fn single(args: &Args, acc: &mut Acc, seed: u64, verbose: bool) {
     acc.count(&format!("runs[{}]", cfg.ring), 1);
     if inconclusive { return }
     let mut ch = cfg.creations.len() as u64;
-    for s in &cfg.scripts { for st in s { ch = mix(ch, match st { Step::Clone(k) => *k as u64, Step::Drop(k) => 10 + *k as u64, Step::Deref(k) => 20 + *k as u64, Step::Bulk(k, c) => 30 + *k as u64 * 4 + *c as u64, Step::SendTo(k, t) => 60 + *k as u64 * 4 + *t as u64, Step::Refs(k) => 90 + *k as u64, Step::TakeMail => 99 }) } }
+    for s in &cfg.scripts { for st in s { ch = mix(ch, match st { Step::Clone(k) => *k as u64, Step::Drop(k) => 10 + *k as u64, Step::Deref(k) => 20 + *k as u64, Step::Bulk(k, c) => 30 + *k as u64 * 4 + *c as u64, Step::SendTo(k, t) => 60 + *k as u64 * 4 + *t as u64, Step::Refs(k) => 90 + *k as u64, Step::CloneShared(k) => 100 + *k as u64, Step::DerefShared(k) => 110 + *k as u64, Step::BulkShared(k, c) => 120 + *k as u64 * 4 + *c as u64, Step::TakeMail => 99 }) } }
     acc.nontrivial(mix(if args.lane == Lane::Ser { hash } else { 0 }, ch));
     acc.sample(3, || J::obj().with("config", cfg.json()).with("strategy", J::s(rc.strategy.describe())));
     if let Some(v) = violation { file_violation(args, acc, seed, verbose, v) }
